@@ -1,4 +1,6 @@
 import HkModel.Drive.Json
+import HkModel.Drive.Queue
+import HkModel.Model.SplitFilter
 /-! driver mode `concx`: concurrent requests through the real handlers, scenarios with a schedule-independent outcome.
     The predicates are the sequential theorems' conclusions read on the totals: whatever the interleaving, the totals must be
     those of SOME sequential order of the same requests (each handler decision being one critical section). -/
@@ -80,11 +82,25 @@ def processLine (line : String) : String :=
       if nat j "grantsLostOrDoubled" != 0 then s!"PROP C03,C04 live-lease-wiped-by-a-stale-operation-or-message-granted-twice count={nat j "grantsLostOrDoubled"} {tag}"
       else "ok"
     | "interposed" =>
-      -- C05 / C03 / C14: other requests served in the middle of an operator's by-filter requeue keep what they were told
+      -- C05 / C03 / C14: other requests served in the middle of an operator's by-filter requeue keep what they were told.
+      -- The two-step model (`Model/SplitFilter`, theorems in `Props/SplitFilter`) is run on the three snapshots: the store
+      -- when the ids were selected (q0), when the second step ran (q), and afterwards.
+      let q0 : Q := { msgs := (arr j "q0").map DriveQueue.msgOfJson }
+      let q : Q := { msgs := (arr j "q").map DriveQueue.msgOfJson }
+      let after := DriveQueue.sortMsgs ((arr j "after").map DriveQueue.msgOfJson)
+      let k : IdKind := if str j "op" == "resume-canceled" then .resume else .requeue
+      let f := DriveQueue.filterOfJson (obj j "f")
+      let (qm, rm) := SplitFilter.splitByFilter (int j "now") k f q0 q
+      let allowed := allowedStates k
+      -- the conclusion of `untouched_outside_allowed_states`, read on the implementation's own output
+      let touched := q.msgs.filter (fun m => !(allowed.contains m.st) && after.find? (·.id == m.id) != some m)
       if !(bool j "setupOK") || !(bool j "interposedOK") || !(bool j "opOK") then s!"DIVERGE concx interposed: scenario did not run as intended {tag}"
       else if nat j "offeredEarly" != 0 then s!"PROP C05,C14 message-offered-before-its-nack-delay-after-an-overlapping-requeue-by-filter {tag}"
       else if nat j "missingAfterDelay" != 0 then s!"PROP C05,C02 nacked-message-not-offered-after-its-delay-after-an-overlapping-requeue-by-filter {tag}"
       else if nat j "freshLeaseAckFailed" != 0 then s!"PROP C03,C05,C14 live-lease-wiped-by-an-overlapping-requeue-by-filter {tag}"
+      else if !touched.isEmpty then s!"PROP C14,C05,C03 by-filter-operation-changed-a-message-outside-its-states ids={touched.map (·.id)} {tag}"
+      else if DriveQueue.sortMsgs qm.msgs != after then s!"DIVERGE concx interposed: store after the two-step operation differs from the split model: {DriveQueue.firstDiff (DriveQueue.sortMsgs qm.msgs) after} {tag}"
+      else if rm != .count (nat j "requeued") (nat j "matched") false then s!"DIVERGE concx interposed: counts differ from the split model: model {repr rm} {tag}"
       else "ok"
     | "churn" =>
       -- C05 / C02: whatever was accepted and is queued and due is offered; after producer and consumer are done nothing is left
